@@ -74,8 +74,14 @@ func (sp *persister) savePipes(pps []Pipe) error {
 		return errors.Wrapf(err, "could not marshal ppipes ")
 	}
 
-	if err = ioutil.WriteFile(fn, data, 0640); err != nil {
-		return errors.Wrapf(err, "could not write file %s ", fn)
+	// write aside and rename: pipes.dat is never half-written
+	tmpFn := fn + ".tmp"
+	if err = ioutil.WriteFile(tmpFn, data, 0640); err != nil {
+		return errors.Wrapf(err, "could not write file %s ", tmpFn)
+	}
+
+	if err = os.Rename(tmpFn, fn); err != nil {
+		return errors.Wrapf(err, "could not rename file %s to %s", tmpFn, fn)
 	}
 
 	return nil
